@@ -263,7 +263,9 @@ func (m refMsg) listOf(kind string) []string {
 	var out []string
 	for i, n := range m.names {
 		if hdrKind(n) == kind {
-			out = append(out, strings.Split(m.values[i], ",")...)
+			for _, e := range strings.Split(m.values[i], ",") {
+				out = append(out, strings.Trim(e, " \t")) // blanks around the commas of a list are not part of its elements
+			}
 		}
 	}
 	return out
